@@ -703,7 +703,7 @@ func c15R6(a *A) {
 		if !ok || !res.Exec[c.Block()] || c.Common().StaticCallee() == nil {
 			return
 		}
-		switch c.Common().StaticCallee().Name() {
+		switch canonName(c) {
 		case "readLenEncInt":
 			lenencArgs = append(lenencArgs, x.affine(c.Common().Args[1]).String())
 		case "newBitmap":
